@@ -66,6 +66,11 @@
 (*   GroupCopyDuplicatesPair  copying a group copies each child; each linked survey child brings its     *)
 (*                         partner along (base.py:260-267, direct_current.py:157-186): a group holding   *)
 (*                         a pair ends up with two copied pairs                                          *)
+(*   EmptyPartnerBreaksLoopCopy  a copy through the transmitters whose mask keeps only loops no receiver   *)
+(*                         refers to gives a receivers copy without stations; copying those transmitters   *)
+(*                         again builds the partner's mask with np.r_[[]] - an empty *float* array - and   *)
+(*                         indexing with it raises IndexError (base.py:710-713): the transmitters' copy    *)
+(*                         stays behind, unlinked                                                           *)
 (* The specification is explored with Deviations = {} (ideal); every transition additionally   *)
 (* exports, as last.alt, the state the same action yields with all KnownDevs switched on, so   *)
 (* that the harness can recognise exactly these behaviours and nothing else.                   *)
@@ -95,7 +100,8 @@ vw == <<ents>>        \* VIEW: counters, focus and last never multiply states
 
 KnownDevs == {"WaveformAliased", "LinkFromTxDropsTxId", "InputTypeSetterMLFEM", "UnitSetterTIP",
               "LoopRadiusNoneHalfApplied", "TipperSingleBaseMaskedCopy", "RelinkKeepsCachedPartner",
-              "RelinkLeavesSharedDictionary", "CopyFailsOnGroupedIdData", "GroupCopyDuplicatesPair"}
+              "RelinkLeavesSharedDictionary", "CopyFailsOnGroupedIdData", "GroupCopyDuplicatesPair",
+              "EmptyPartnerBreaksLoopCopy"}
 
 \* ------------------------------------------------------------------ class pair traits
 Family     == IF Pair = "DC" THEN "dc" ELSE "em"
@@ -424,19 +430,28 @@ PgFailRes(E, i, m, destws) ==
 PgBreaks(i, dev) == /\ IdInGroup /\ Grouped /\ "CopyFailsOnGroupedIdData" \in dev
                     /\ (ents[i].role = "A" \/ ents[i].ptr # 0)
 
+\* as built: large-loop transmitters whose receivers have no station cannot be copied (the copy stays, unlinked)
+LoopBreaks(i, dev) == /\ LargeLoop /\ "EmptyPartnerBreaksLoopCopy" \in dev
+                      /\ ents[i].role = "B" /\ ents[i].ptr # 0 /\ ents[ents[i].ptr].geo = {}
+
 Copy(i, how, m, dest) ==
     /\ ncopies < MaxCopies
     /\ ~InGroup
     /\ ~Abandoned(ents, i)
     /\ (how = "plain") <=> (m = "-")
+    /\ (m # "-") => ents[i].geo # {}                     \* the extent of an object without vertices is C13 territory (points.py:54 raises)
     /\ (Pair = "TIP1" /\ ents[i].role = "B") => m = "-"     \* a single vertex has no segment to select (cell_object.py:67-75)
-    /\ LET none == CopySel(i, m) = {}                     \* copy_from_extent returns None (entity_container.py:149-151)
+    /\ LET \* a mask / extent that selects nothing: copy_from_extent returns None (entity_container.py:149-151);
+           \* a plain copy is not a selection: an entity without stations (see EmptyPartnerBreaksLoopCopy) is copied as it is
+           none == m # "-" /\ CopySel(i, m) = {}
            dws  == IF dest = "same" THEN ents[i].ws ELSE 3 - ents[i].ws
            Res(dev) == IF none THEN ents
                        ELSE IF PgBreaks(i, dev) THEN PgFailRes(ents, i, m, dws)
+                       ELSE IF LoopBreaks(i, dev) THEN Settle(UnlinkedCopy(ents, i, CopySel(i, m), dws, TRUE))
                        ELSE IF CopyBreaks(i, m, dev) THEN OrphanRes(ents, i, m, dws)
                        ELSE CopyRes(ents, i, m, dws)
-           Out(dev) == IF none THEN "none" ELSE IF PgBreaks(i, dev) \/ CopyBreaks(i, m, dev) THEN "refused" ELSE "ok"
+           Out(dev) == IF none THEN "none"
+                       ELSE IF PgBreaks(i, dev) \/ LoopBreaks(i, dev) \/ CopyBreaks(i, m, dev) THEN "refused" ELSE "ok"
            E2   == Res(Deviations)
            EA   == Res(KnownDevs)
        IN /\ (how = "mask") => ~none                       \* a boolean mask selecting nothing is not exercised
@@ -447,6 +462,7 @@ Copy(i, how, m, dest) ==
                                     !.altout = Out(KnownDevs),
                                     !.dev = IF EA = E2 /\ Out(KnownDevs) = Out(Deviations) THEN "-"
                                             ELSE IF PgBreaks(i, KnownDevs) THEN "CopyFailsOnGroupedIdData"
+                                            ELSE IF LoopBreaks(i, KnownDevs) THEN "EmptyPartnerBreaksLoopCopy"
                                             ELSE "TipperSingleBaseMaskedCopy"]
     /\ ncopies' = ncopies + 1
     /\ UNCHANGED <<nedits, nreopens, focus>>
